@@ -54,6 +54,7 @@ struct Rec {
 struct DefSpec {
     std::vector<int> cls; // one class per virtual position
     int fn = 0;           // which pool function (unique within a method)
+    std::vector<int> alias; // projection: alias per position (empty = 0)
 };
 
 struct MethSpec {
@@ -61,6 +62,7 @@ struct MethSpec {
     int key = 0;
     std::vector<int> vp; // class per virtual position
     std::vector<DefSpec> defs; // in registration order
+    std::vector<int> vp_alias; // projection: alias per position (empty = 0)
 };
 
 struct Spec {
@@ -278,7 +280,14 @@ inline json to_json(const Spec& s) {
                    {"vp", m.vp},
                    {"defs", json::array()}};
         for (auto& d : m.defs) {
-            jm["defs"].push_back({{"cls", d.cls}, {"fn", d.fn}});
+            json jd = {{"cls", d.cls}, {"fn", d.fn}};
+            if (!d.alias.empty()) {
+                jd["alias"] = d.alias;
+            }
+            jm["defs"].push_back(jd);
+        }
+        if (!m.vp_alias.empty()) {
+            jm["vp_alias"] = m.vp_alias;
         }
         j["meths"].push_back(jm);
     }
@@ -321,10 +330,16 @@ inline Spec spec_from_json(const json& j) {
         m.shape = shape_index(jm.at("shape"));
         m.key = jm.at("key");
         m.vp = jm.at("vp").get<std::vector<int>>();
+        if (jm.contains("vp_alias")) {
+            m.vp_alias = jm.at("vp_alias").get<std::vector<int>>();
+        }
         for (auto& jd : jm.at("defs")) {
             DefSpec d;
             d.cls = jd.at("cls").get<std::vector<int>>();
             d.fn = jd.at("fn");
+            if (jd.contains("alias")) {
+                d.alias = jd.at("alias").get<std::vector<int>>();
+            }
             m.defs.push_back(d);
         }
         s.meths.push_back(m);
@@ -366,10 +381,16 @@ inline void hash_spec(vf::Fnv& h, const Spec& s) {
         for (int x : m.vp) {
             h.add(x);
         }
+        for (int x : m.vp_alias) {
+            h.add(x);
+        }
         h.add(m.defs.size());
         for (auto& d : m.defs) {
             h.add(d.fn);
             for (int x : d.cls) {
+                h.add(x);
+            }
+            for (int x : d.alias) {
                 h.add(x);
             }
         }
@@ -424,13 +445,15 @@ inline void transitive_reduce(Spec& s) {
 inline void gen_graph(Choice& ch, Spec& s, const GenOpts& o, int size) {
     static const char* names[] = {"tree",    "forest", "diamonds", "wide",
                                   "layered", "mixed",  "chain"};
-    int shape = ch.draw(7);
+    // weighted choice; index 0 (a tree) is the simplest
+    static const int weighted[] = {0, 1, 6, 2, 2, 3, 3, 3, 4, 4, 5, 5};
+    int shape = weighted[ch.draw(12)];
     if (o.lattice_bias && (shape == 0 || shape == 1 || shape == 6) &&
         ch.chance(3, 4)) {
         shape = 2 + ch.draw(4);
     }
     s.graph_shape = names[shape];
-    int maxn = std::max(1, std::min(o.max_classes, 1 + size * o.max_classes / 60));
+    int maxn = std::max(1, std::min(o.max_classes, 2 + size / 3));
     int n = 1 + ch.draw(maxn);
     s.n = n;
     s.bases.assign(n, {});
@@ -712,8 +735,31 @@ inline void gen_methods(Choice& ch, Spec& s, const GenOpts& o, int size) {
         }
         for (int di = 0; di < nd; ++di) {
             DefSpec d;
-            int mode = ch.draw(8); // 0..4 focus, 5 near-duplicate, 6..7 free
-            if (mode == 5 && !m.defs.empty()) {
+            int mode = ch.draw(9); // 0..4 focus, 5 near-duplicate, 6..7 free,
+                                   // 8 cross (unrelated bases at one position)
+            if (mode == 8 && arity >= 2 && !m.defs.empty()) {
+                // Take an existing definition and replace, at one position,
+                // its class by one that is unrelated to it but shares a
+                // descendant (so both stay applicable together), and at
+                // another position move one step along the lattice: this is
+                // what makes "more specific" non-transitive.
+                d = m.defs[ch.draw(m.defs.size())];
+                int p = ch.draw(arity);
+                int q = (p + 1 + ch.draw(arity - 1)) % arity;
+                std::vector<int> unrelated;
+                for (int c : bits(s.desc[m.vp[p]])) {
+                    if (!s.isa(c, d.cls[p]) && !s.isa(d.cls[p], c) &&
+                        (s.desc[c] & s.desc[d.cls[p]])) {
+                        unrelated.push_back(c);
+                    }
+                }
+                if (!unrelated.empty()) {
+                    d.cls[p] = unrelated[ch.draw(unrelated.size())];
+                }
+                std::uint64_t rel =
+                    (s.anc[d.cls[q]] & s.desc[m.vp[q]]) | s.desc[d.cls[q]];
+                d.cls[q] = pick_from_mask(ch, rel);
+            } else if (mode == 5 && !m.defs.empty()) {
                 d = m.defs[ch.draw(m.defs.size())];
                 int pos = ch.draw(arity);
                 int c = d.cls[pos];
